@@ -408,10 +408,13 @@ class CFG:
         if self._normal_form is not None:
             return self._normal_form
         nullables = self.get_nullable_symbols()
-        unit_pairs = self.get_unit_pairs()
+        has_unit_production = any(
+            len(production.body) == 1
+            and isinstance(production.body[0], Variable)
+            for production in self._productions)
         generating = self.get_generating_symbols()
         reachables = self.get_reachable_symbols()
-        if (len(nullables) != 0 or len(unit_pairs) != len(self._variables) or
+        if (len(nullables) != 0 or has_unit_production or
                 len(generating) !=
                 len(self._variables) + len(self._terminals) or
                 len(reachables) !=
